@@ -114,6 +114,12 @@ Error RAStackAllocator::calculate_stack_frame() noexcept {
     }
 
     uint32_t slot_alignment = slot->alignment();
+
+    // Offsets are stored as `int32_t` - refuse a frame that doesn't fit.
+    if (ASMJIT_UNLIKELY(Support::align_up<uint64_t>(offset, slot_alignment) + slot->size() > uint64_t(0x7FFFFF00u))) {
+      return make_error(Error::kTooLarge);
+    }
+
     uint32_t aligned_offset = Support::align_up(offset, slot_alignment);
 
     // Try to find a slot within gaps first, before advancing the `offset`.
